@@ -34,6 +34,9 @@ pub struct Family {
     pub odd_names: bool,
     /// long repetitive strings / names: packed-string columns that get LZ4-compressed
     pub compressible: bool,
+    /// string-valued columns (packed-string columns of ordinary words also compress once a merged
+    /// partition is large enough - finding F28 - so only dedicated families carry them)
+    pub strings: bool,
     pub restarts: bool,
     pub evicts: bool,
     pub bursts: bool,
@@ -110,7 +113,9 @@ pub struct HistGen<'f> {
 impl<'f> HistGen<'f> {
     fn pick_cols(&self, r: &mut Rng) -> Vec<(String, u8)> {
         let p = pool(self.fam.odd_names, self.fam.compressible);
-        let mut v: Vec<(String, u8)> = p.into_iter().filter(|_| r.chance(1, 2)).collect();
+        let strings = self.fam.strings;
+        let mut v: Vec<(String, u8)> =
+            p.into_iter().filter(|_| r.chance(1, 2)).map(|(n, k)| if k == 1 && !strings { (n, 0) } else { (n, k) }).collect();
         if v.len() > 5 {
             v.truncate(5);
         }
